@@ -46,6 +46,19 @@ def all_cells_loop(fn, fold):
                 isinstance(s.targets[0], ast.Name):
             nl_names.add(s.targets[0].id)
     if outer is inner:
+        # one flat loop over every cell: itertools.chain.from_iterable(NL) / chain(*NL), directly or through a local bound once
+        it = inner.iter
+        if isinstance(it, ast.Name):
+            ds = [s for s in ast.walk(fn) if isinstance(s, ast.Assign) and len(s.targets) == 1 and isinstance(s.targets[0], ast.Name) and s.targets[0].id == it.id]
+            stores = [n for n in ast.walk(fn) if isinstance(n, ast.Name) and n.id == it.id and isinstance(n.ctx, ast.Store)]
+            if len(ds) == 1 and len(stores) == 1:
+                it = ds[0].value
+        if isinstance(it, ast.Call) and norm_src(it.func) in ("itertools.chain.from_iterable", "chain.from_iterable") and len(it.args) == 1 and \
+                norm_src(it.args[0]) in nl_names:
+            return True, "for cell in chain.from_iterable(node_list)"
+        if isinstance(it, ast.Call) and norm_src(it.func) in ("itertools.chain", "chain") and len(it.args) == 1 and isinstance(it.args[0], ast.Starred) and \
+                norm_src(it.args[0].value) in nl_names:
+            return True, "for cell in chain(*node_list)"
         return False, "a single loop over '%s'" % norm_src(inner.iter)
     def unordered(e):
         # the candidate SET does not depend on the order of enumeration: reversed(X), list(X), tuple(X), X[::-1] enumerate X
